@@ -222,6 +222,8 @@ def invalid_trials(ex, D):
               ("RandomDiscontinuities std_one + max_one", lambda: ic.RandomDiscontinuities(D, zero_mean=True, std_one=True, max_one=True)),
               ("Discontinuities std_one + max_one", lambda: ic.Discontinuities((), std_one=True, max_one=True)),
               ("SineWaves1d offset + std_one", lambda: ic.SineWaves1d(1.0, (1.0,), (1,), (0.0,), offset=0.5, std_one=True)),
+              ("SineWaves1d integer offset + std_one", lambda: ic.SineWaves1d(1.0, (1.0,), (1,), (0.0,), offset=1, std_one=True)),
+              ("SineWaves1d negative integer offset + std_one", lambda: ic.SineWaves1d(2.0, (1.0, 0.5), (1, 2), (0.0, 0.3), offset=-2, std_one=True)),
               ("SineWaves1d std_one + max_one", lambda: ic.SineWaves1d(1.0, (1.0,), (1,), (0.0,), std_one=True, max_one=True)),
               ("SineWaves1d length mismatch", lambda: ic.SineWaves1d(1.0, (1.0, 2.0), (1,), (0.0,))),
               ("RandomSineWaves1d offset + std_one", lambda: ic.RandomSineWaves1d(1, offset_range=(0.5, 1.0), std_one=True)),
